@@ -352,10 +352,11 @@ def nosite(t):
 
 
 def walk(t):
-    """all subtrees"""
+    """all subtrees (untagged tuples -- argument lists, the alternatives of a 'choice' node -- are walked element-wise)"""
     yield t
     if isinstance(t, tuple):
-        for x in t[1:]:
+        items = t[1:] if (t and isinstance(t[0], str)) else t
+        for x in items:
             if isinstance(x, tuple):
                 if x and isinstance(x[0], str):
                     yield from walk(x)
@@ -606,12 +607,25 @@ def args_of(body, term):
     return [sym(body, a) for a in term.args]
 
 
+_ATOMS_DEPTH = [0]
+
+
 def atoms_at(body, b):
-    """[(tree, polarity, guard)] for boolean guards dominating b, plus discriminant guards with polarity None"""
+    """[(tree, polarity, guard)] for boolean guards dominating b, plus discriminant guards with polarity None. A guard on a
+    named / temporary boolean that holds a short-circuit conjunction (`let ok = a == x && b == y; if !ok { continue }`) also
+    contributes its conjuncts as true atoms."""
     out = []
     for g in guards_at(body, b):
         t, pol = g.atom()
         out.append((t, pol, g))
+        if pol is True and isinstance(t, tuple) and t and t[0] in ('phi', 'var') and _ATOMS_DEPTH[0] < 3:
+            _ATOMS_DEPTH[0] += 1
+            try:
+                terms = conj_terms(body, t)
+            finally:
+                _ATOMS_DEPTH[0] -= 1
+            for c in terms or ():
+                out.append((c, True, g))
     return out
 
 
@@ -736,6 +750,37 @@ def memory_reads(body, x, _seen=None):
                         out.append((d, o.place))
                     else:
                         out.extend(memory_reads(body, o, _seen))
+    return out
+
+
+def slice_calls(body, x, regex, _seen=None):
+    """call terminators matching `regex` in the backward slice of operand/place x (through every definition of the locals
+    involved): the calls whose results actually flow into x. Unlike the symbolic tree this keeps the identity (block) of the
+    call, so rules can reason about WHEN a mutable container was read."""
+    import re as _re
+    if _seen is None:
+        _seen = set()
+    out = []
+    pl = x if isinstance(x, Place) else getattr(x, 'place', None)
+    if pl is None:
+        return out
+    l = pl.local
+    if l in _seen or (1 <= l <= body.arg_count):
+        return out
+    _seen.add(l)
+    whole, partial = defs_of(body, l)
+    for d in list(whole) + list(partial):
+        if hasattr(d, 'rv'):
+            rv = d.rv
+            if rv.place is not None:
+                out.extend(slice_calls(body, rv.place, regex, _seen))
+            for o in rv.ops:
+                out.extend(slice_calls(body, o, regex, _seen))
+        else:
+            if _re.search(regex, d.callee_res() or ''):
+                out.append(d)
+            for o in d.args:
+                out.extend(slice_calls(body, o, regex, _seen))
     return out
 
 
